@@ -261,7 +261,7 @@ def string_form(u, s):
     return out
 
 
-BASE_PATHS = {"truediv": "/d/e", "truediv_noauth": "d/e", "joinpath1": "/d/", "joinpath2": "/d", "joinpath2b": ""}
+BASE_PATHS = {"truediv": "/d/e", "truediv_noauth": "d/e", "truediv_file": "/d/e", "joinpath1": "/d/", "joinpath2": "/d", "joinpath2b": ""}
 
 
 def case_route(acc, rname, w):
